@@ -151,7 +151,8 @@ Proof.
 Qed.
 
 Lemma kill_set_spec victims t :
-  In t (kill_set victims) <-> exists r, In r victims /\ rt_active r = true /\ rt_id r = t.
+  In t (kill_set victims) <->
+  exists r, In r victims /\ rt_active r || kill_inactive = true /\ rt_id r = t.
 Proof.
   unfold kill_set. rewrite in_map_iff. split.
   - intros [r [E Hr]]. apply filter_In in Hr. destruct Hr. eauto.
@@ -595,7 +596,8 @@ Proof.
     destruct (memN (mt_id y) (map rt_id victims)) eqn:V.
     + exfalso. apply memN_In in V. apply in_map_iff in V. destruct V as [v [Ev Hvv]].
       assert (Av : rt_active v = true) by (apply (A y v Hy Ay (Hv v Hvv) Ev)).
-      assert (K : In (mt_id y) (kill_set victims)) by (apply kill_set_spec; eauto).
+      assert (K : In (mt_id y) (kill_set victims)).
+      { apply kill_set_spec. exists v. rewrite Av. auto. }
       apply memN_In in K. congruence.
     + rewrite <- Hin in R. apply in_roster_spec in R. destruct R as [r [Hr1 Er]].
       apply in_roster_spec. exists r. split; [|exact Er]. apply remove_ids_in. split; [exact Hr1|].
@@ -1164,20 +1166,12 @@ Proof.
   rewrite G, IR. cbn. rewrite andb_false_r. reflexivity.
 Qed.
 
-(* the pinned rule does not: the witness *)
+(* the regression witness (what the rule without the roster lookup got wrong) *)
 Lemma witness_no_tamper : no_tamper c18_witness = true.
 Proof. reflexivity. Qed.
 
 Lemma witness_spares : spares_owned (boot true) c18_witness = recon_guarded.
 Proof. vm_compute. reflexivity. Qed.
-
-Lemma witness_refutes :
-  recon_guarded = false ->
-  ~ (forall ops, no_tamper ops = true -> spares_owned (boot true) ops = true).
-Proof.
-  intros G St. specialize (St c18_witness witness_no_tamper). rewrite witness_spares, G in St.
-  discriminate.
-Qed.
 
 (* ---------- every task alive before the restart receives KILL ---------- *)
 Lemma drain_kills n : forall w,
@@ -1266,4 +1260,91 @@ Proof.
     + subst w2. unfold subscribe, crash. cbn. rewrite F, S. cbn.
       unfold snapshot. apply in_map_iff. exists x. split; [reflexivity|].
       apply filter_In. split; [exact K|]. rewrite A, (FA x K). reflexivity.
+Qed.
+
+(* ================================================================ the repaired rule:
+   reconciliation answers leave every task of the roster alone *)
+Lemma spares_owned_full w ops : spares_owned w ops = true.
+Proof. apply guarded_spares_owned. reflexivity. Qed.
+
+Lemma roster_deactivate_absent t ros :
+  in_roster t ros = false -> roster_deactivate [t] ros = ros.
+Proof.
+  unfold in_roster, roster_deactivate. induction ros as [|q ros IH]; intro H; [reflexivity|].
+  cbn [existsb] in H. apply orb_false_iff in H. destruct H as [Hq Hr].
+  cbn [map]. rewrite memN_single, Hq, (IH Hr). reflexivity.
+Qed.
+
+Lemma master_kill_spares t m x :
+  In x m -> N.eqb (mt_id x) t = false -> In x (master_kill [t] m).
+Proof.
+  intros Hx Ne. unfold master_kill. apply in_map_iff. exists x. split; [|exact Hx].
+  rewrite memN_single, Ne. reflexivity.
+Qed.
+
+Definition untouched (w w' : world) (cs : list call) : Prop :=
+  w_roster w' = w_roster w /\ w_envs w' = w_envs w /\
+  (forall x, In x (w_master w) -> in_roster (mt_id x) (w_roster w) = true -> In x (w_master w')) /\
+  (forall t, In (CKill t) cs -> in_roster t (w_roster w) = false).
+
+Lemma answer_untouched w : untouched w (fst (answer w)) (snd (answer w)).
+Proof.
+  assert (G : recon_guarded = true) by reflexivity.
+  unfold untouched, answer. destruct (w_pending w) as [|[t s] rest].
+  { cbn. repeat split; auto. intros t []. }
+  rewrite G. cbn [andb].
+  destruct (in_roster t (w_roster w)) eqn:IR.
+  - rewrite andb_false_r. cbn. repeat split; auto. intros t' [].
+  - cbn [negb]. rewrite andb_true_r. destruct (memN s recon_kill_states); cbn.
+    + split; [apply roster_deactivate_absent; exact IR|]. split; [reflexivity|]. split.
+      * intros x Hx Rx. apply master_kill_spares; [exact Hx|].
+        destruct (N.eqb (mt_id x) t) eqn:E; [|reflexivity].
+        apply N.eqb_eq in E. rewrite E, IR in Rx. discriminate.
+      * intros t' [E|[]]. inversion E; subst. exact IR.
+    + repeat split; auto. intros t' [].
+Qed.
+
+Lemma answer_kills_unrostered w t :
+  In (CKill t) (snd (step w OAnswer)) -> in_roster t (w_roster w) = false /\ owned w t = false.
+Proof.
+  cbn [step]. intro H. destruct (answer_untouched w) as [_ [_ [_ K]]]. specialize (K t H).
+  split; [exact K|]. destruct (owned w t) eqn:O; [|reflexivity].
+  rewrite owned_is_owned_c in O. apply owned_c_spec in O. destruct O as [r [e [Hr [I _]]]].
+  assert (IR : in_roster t (w_roster w) = true) by (apply in_roster_spec; eauto).
+  rewrite IR in K. discriminate.
+Qed.
+
+Lemma drain_untouched n : forall w,
+  untouched w (fst (run w (repeat OAnswer n))) (snd (run w (repeat OAnswer n))).
+Proof.
+  induction n as [|n IH]; intro w.
+  - cbn. unfold untouched. repeat split; auto. intros t [].
+  - cbn [repeat run step]. pose proof (answer_untouched w) as A.
+    destruct (answer w) as [w1 c1]. cbn [fst snd] in A. specialize (IH w1).
+    destruct (run w1 (repeat OAnswer n)) as [w2 c2]. cbn [fst snd] in IH |- *.
+    destruct A as [R1 [E1 [M1 K1]]]. destruct IH as [R2 [E2 [M2 K2]]].
+    unfold untouched. split; [rewrite R2; exact R1|]. split; [rewrite E2; exact E1|]. split.
+    + intros x Hx Rx. apply M2; [apply M1; assumption|rewrite R1; exact Rx].
+    + intros t Ht. apply in_app_or in Ht. destruct Ht as [Ht|Ht]; [apply K1; exact Ht|].
+      rewrite <- R1. apply K2. exact Ht.
+Qed.
+
+(* a dropped and re-established connection, with all its reconciliation answers processed *)
+Lemma reconnect_untouched w :
+  untouched w (fst (hstep w OReconnect)) (snd (hstep w OReconnect)).
+Proof.
+  unfold hstep. cbn [step].
+  destruct (subscribe w) as [w1 c1] eqn:S.
+  assert (W1 : w_roster w1 = w_roster w /\ w_envs w1 = w_envs w /\ w_master w1 = w_master w /\
+               forall t, ~ In (CKill t) c1).
+  { unfold subscribe in S. inversion S; subst. cbn. repeat split.
+    intros t [H|[H|[]]]; discriminate. }
+  destruct W1 as [R1 [E1 [M1 K1]]].
+  pose proof (drain_untouched (length (w_pending w1)) w1) as D.
+  destruct (run w1 (repeat OAnswer (length (w_pending w1)))) as [w2 c2]. cbn [fst snd] in D |- *.
+  destruct D as [R2 [E2 [M2 K2]]]. unfold untouched.
+  split; [rewrite R2; exact R1|]. split; [rewrite E2; exact E1|]. split.
+  - intros x Hx Rx. apply M2; [rewrite M1; exact Hx|rewrite R1; exact Rx].
+  - intros t Ht. apply in_app_or in Ht. destruct Ht as [Ht|Ht]; [destruct (K1 t Ht)|].
+    rewrite <- R1. apply K2. exact Ht.
 Qed.
